@@ -6,6 +6,7 @@ VERIF = os.path.dirname(HERE)
 props = [json.loads(l) for l in open(os.path.join(VERIF, 'properties.jsonl'))]
 NA = json.load(open(os.path.join(HERE, 'not_applicable.json'))) if os.path.exists(os.path.join(HERE, 'not_applicable.json')) else {}
 checks, na = [], []
+KF = json.load(open(os.path.join(VERIF, 'known_findings.json')))
 for p in props:
     pid = p['id']
     hp = os.path.join(HERE, 'harness', pid.lower() + '.py')
@@ -17,8 +18,15 @@ for p in props:
     meta = {}
     import ast
     for node in ast.parse(src).body:
-        if isinstance(node, ast.Assign) and isinstance(node.targets[0], ast.Name) and node.targets[0].id in ('LEVEL_TEXT', 'LEVEL_NOTE', 'TECHNIQUE'):
-            meta[node.targets[0].id] = ast.literal_eval(node.value)
+        if isinstance(node, ast.Assign) and isinstance(node.targets[0], ast.Name) and node.targets[0].id in ('LEVEL_TEXT', 'LEVEL_NOTE', 'TECHNIQUE', 'UNPROVEN', 'ASSUMPTIONS'):
+            try: meta[node.targets[0].id] = ast.literal_eval(node.value)
+            except Exception: pass
+    def _lst(v): return [v] if isinstance(v, str) else [str(x) for x in (v or [])]
+    note = meta.get('LEVEL_NOTE', '')
+    if _lst(meta.get('UNPROVEN')): note += ' || NOT PROVED (observed by correspondence / oracle only, or not covered): ' + ' | '.join(_lst(meta['UNPROVEN']))
+    if _lst(meta.get('ASSUMPTIONS')): note += ' || ASSUMPTIONS on inputs (restrictions of the generators and hypotheses of the theorems): ' + ' | '.join(_lst(meta['ASSUMPTIONS']))
+    kf = [f for f in KF.get('findings', []) if f.get('property') == pid]
+    if kf: note += ' || OPEN KNOWN FINDINGS (printed as KNOWN-FINDING on every run, exit 0): ' + ' | '.join(f"{f.get('id')}: {str(f.get('what') or f.get('summary') or f.get('text') or '')[:300]}" for f in kf)
     checks.append({
         'property_id': pid,
         'quick_cmd': f'/venv/bin/python tools/check.py {pid} --tier quick',
@@ -27,7 +35,7 @@ for p in props:
         'replay_cmd_template': f'/venv/bin/python tools/check.py {pid} --replay {{path}}',
         'engine': 'lean4-proof+tie',
         'level_claimed': {'category': 'proof', 'text': meta.get('LEVEL_TEXT', ''), 'design_ref': f'DESIGN.md §5 {pid}'},
-        'level_note': meta.get('LEVEL_NOTE', ''),
+        'level_note': note,
         'technique': meta.get('TECHNIQUE', 'Lean 4 theorems over a model tied to the source by translator + correspondence'),
     })
 man = {
